@@ -117,9 +117,35 @@ def body(ctx, case):
     ctx.record(case, matchgen.classes(case), nontrivial)
 
 
+class _Quiet:
+    """context stand-in for the inner calls of a pair: counters are kept, cases are recorded once per pair"""
+
+    def __init__(self, ctx):
+        self.ctx = ctx
+
+    def record(self, *a, **k):
+        pass
+
+    def count(self, *a, **k):
+        self.ctx.count(*a, **k)
+
+
+def siblings_body(ctx, case):
+    """A, then its sibling B (same sizes and end points, other interior reference positions), then A again: each
+    judged by the same independent oracle - a result that depends on an earlier call is wrong for one of them."""
+    q = _Quiet(ctx)
+    body(q, case["a"])
+    body(q, case["b"])
+    body(q, case["a"])
+    ctx.record(case, matchgen.classes(case["a"]) + ["moved" if case["moved"] else "identical-sibling"], case["moved"])
+
+
 SUBCHECKS = [
     Sub("small", "hyp", body, strategy=lambda ctx: matchgen.match_case(ctx, big=False), quick=1600, thorough=40000,
         clause="per-interval and total integrals equal the reference's, all modes/rules/alpha, <=12 intervals"),
     Sub("large", "hyp", body, strategy=lambda ctx: matchgen.match_case(ctx, big=True), quick=120, thorough=3200,
         clause="same with 8..60 intervals (up to ~1000 samples)"),
+    Sub("siblings", "hyp", siblings_body, strategy=matchgen.sibling_pair, quick=400, thorough=8000,
+        clause="the result of one matching does not depend on matchings done before (same sizes and end points, "
+               "different interior reference positions)"),
 ]
